@@ -270,15 +270,33 @@ func resourceHog(unlock, lock []byte, flags uint32, ctx progCtx) bool {
 	return r.Unsupported != "" && r.Unsupported != "CLEANSTACK without P2SH"
 }
 
-var sharedEngine = interpreter.NewEngine()
+var (
+	sharedEngines [3]interpreter.Engine
+	engineTurn    int
+)
 
-// theEngine returns the interpreter used for a case. The engine is documented
-// as stateless, so one instance serves every case of a child process (state
-// that survives an Execute call would show up as a case-order dependent
-// disagreement); in replay mode, where a single case runs, a fresh one is used.
+// theEngine returns the interpreter used for an execution. The engine is
+// documented as stateless, so a few long-lived instances serve every case of a
+// child process (state that survives an Execute call shows up as a disagreement
+// that depends on what ran before): one whose first execution had scripts only,
+// one whose first execution had a transaction context, one without history.
+// They take turns from call to call.
 func theEngine(c *mon.Ctx) interpreter.Engine {
-	if c.Replay {
-		return interpreter.NewEngine()
+	if sharedEngines[0] == nil {
+		one := func() *bscript.Script { return bscript.NewFromBytes([]byte{0x51}) }
+		for i := range sharedEngines {
+			sharedEngines[i] = interpreter.NewEngine()
+		}
+		mon.TryQuiet(func() { _ = sharedEngines[0].Execute(interpreter.WithScripts(one(), one())) })
+		mon.TryQuiet(func() {
+			tx := &bt.Tx{Version: 1}
+			inp := &bt.Input{UnlockingScript: one(), SequenceNumber: 0xffffffff}
+			_ = inp.PreviousTxIDAdd(append([]byte{}, fixedTxID...))
+			tx.Inputs = append(tx.Inputs, inp)
+			tx.Outputs = append(tx.Outputs, &bt.Output{Satoshis: 1, LockingScript: one()})
+			_ = sharedEngines[1].Execute(interpreter.WithTx(tx, 0, &bt.Output{Satoshis: 1, LockingScript: one()}))
+		})
 	}
-	return sharedEngine
+	engineTurn++
+	return sharedEngines[engineTurn%len(sharedEngines)]
 }
